@@ -130,18 +130,24 @@ Section Str.
       | _, _ => str_frags (S (length bs)) m None 0 bs
       end.
 
-  Definition str_dec (pol : policy) (s : scon) (bs : list bool) : option (list A * list bool) * meter :=
-    match s with
-    | SCon lo hi ext =>
-        if ext then
-          match bs with
-          | false :: r => str_root pol lo hi m0 r
-          | true :: r => str_frags (S (length r)) m0 None 0 r    (* csiz := the type's default *)
-          | [] => (None, m0)
-          end
-        else str_root pol lo hi m0 bs
-    end.
 End Str.
+
+(* [item_x] reads a unit in the extension branch of an extensible SIZE: the C then takes the
+   type's DEFAULT constraints, `csiz = &asn_DEF_OCTET_STRING_constraints.size; unit_bits =
+   canonical_unit_bits` (8 * bytes per character, whatever the permitted alphabet), and never
+   pre-sizes.  For OCTET STRING (Rt/Uper.v) item_x = item. *)
+Definition str_dec {A : Type} (item item_x : list bool -> option (A * list bool)) (mem : Z -> Z) (chk : bool)
+    (pol : policy) (s : scon) (bs : list bool) : option (list A * list bool) * meter :=
+  match s with
+  | SCon lo hi ext =>
+      if ext then
+        match bs with
+        | false :: r => str_root item mem chk pol lo hi m0 r
+        | true :: r => str_frags item_x mem (S (length r)) m0 None 0 r
+        | [] => (None, m0)
+        end
+      else str_root item mem chk pol lo hi m0 bs
+  end.
 
 (* ================================================================ lists *)
 (* asn_anonymous_set_: count, allocated slots *)
@@ -160,6 +166,10 @@ Section Lst.
   Variable item : list bool -> option (A * list bool).
   Variable esz : Z.             (* bytes the element decoder allocates for one element *)
   Variable guard : bool.        (* the `no bit consumed && nelems > 200` test *)
+  (* pd->moved == moved_before: "the element decoder consumed no bit".  A parameter so that
+     a front end with fixed-width elements need not measure the rest of the input at every
+     element; the theorems ask for [nobit bs r = (length r =? length bs)] on what [item] returns *)
+  Variable nobit : list bool -> list bool -> bool.
   Variable chk : bool.
 
   (* for(i = 0; i < nelems; i++): [k] elements still to come of a batch of [nel] *)
@@ -173,7 +183,7 @@ Section Lst.
         | Some (a, r) =>
             let m1 := m_malloc m esz in
             let '(m2, l2) := set_add m1 l in
-            if guard && (length r =? length bs)%nat && (200 <? nel) then (None, (m2, l2))
+            if guard && nobit bs r && (200 <? nel) then (None, (m2, l2))
             else
               match lst_items nel k' m2 l2 r with
               | (Some (x, r'), ml) => (Some (a :: x, r'), ml)
@@ -244,15 +254,18 @@ Definition get_unit (ub : nat) (bs : list bool) : option (Z * list bool) := get_
 (* strings: outcome, bits left, meter.  ub = bits per unit in the encoding, bpc as [mem_of] *)
 Definition c15_str (pol : policy) (ub : nat) (bpc : Z) (s : scon) (bs : list bool)
   : option (Z * Z) * meter :=
-  match str_dec (get_unit ub) (mem_of bpc) false pol s bs with
+  let ubx := if bpc =? 0 then ub else Z.to_nat (8 * bpc) in
+  match str_dec (get_unit ub) (get_unit ubx) (mem_of bpc) false pol s bs with
   | (Some (x, r), m) => (Some (zlen x, zlen r), m)
   | (None, m) => (None, m)
   end.
 
 (* lists of fixed-width scalar elements ([ub] bits each, [esz] bytes in memory) *)
+Definition nobit_len (bs r : list bool) : bool := (length r =? length bs)%nat.
+
 Definition c15_lst (pol : policy) (ub : nat) (esz : Z) (s : scon) (bs : list bool)
   : option (Z * Z) * (meter * lst) :=
-  match lst_dec (get_unit ub) esz true false pol s bs with
+  match lst_dec (get_unit ub) esz true (fun _ _ => Nat.eqb ub 0) false pol s bs with
   | (Some (x, r), ml) => (Some (zlen x, zlen r), ml)
   | (None, ml) => (None, ml)
   end.
